@@ -400,9 +400,14 @@ def detect_spec_version(stix_dict):
         for obj in stix_dict.get("objects", []):
             if isinstance(obj, collections.abc.Mapping) and "type" in obj:
                 v = max(v, detect_spec_version(obj))
-    elif obj_type in mappings.STIX2_OBJ_MAPS["2.1"]["observables"]:
+    elif obj_type in mappings.STIX2_OBJ_MAPS["2.1"]["observables"] and not (
+        "created" in stix_dict
+        and obj_type in mappings.STIX2_OBJ_MAPS["2.0"]["objects"]
+    ):
         # Non-bundle object with an ID and without spec_version.  Could be a
-        # 2.1 SCO or 2.0 SDO/SRO/marking.  Check for 2.1 SCO...
+        # 2.1 SCO or 2.0 SDO/SRO/marking.  Check for 2.1 SCO...  (A 2.0 custom
+        # object type may share its name with a 2.1 SCO type; unlike SCOs,
+        # 2.0 objects always have a "created" property.)
         v = "2.1"
     else:
         # Not a 2.1 SCO; must be a 2.0 object.
